@@ -15,7 +15,9 @@ EXTENDS Integers, Sequences, FiniteSets, TLC, Json
 VARIABLE x
 KindSeqs == UNION {[1..k -> {"type", "value"}] : k \in 1..3}
 ClassFieldHosts == {"set", "choice", "seqof", "setof", "nested_seq_in_setof", "seq_with_set_sibling", "seq_with_ext_choice_sibling",
-                    "choice_with_additions", "seq_with_constrained_siblings", "set_nested_in_choice"}
+                    "choice_with_additions", "seq_with_constrained_siblings", "set_nested_in_choice",
+                    \* fields of two classes that share the field name and differ in the field's type, in one SEQUENCE / SET
+                    "two_classes_seq", "two_classes_set"}
 Points ==
     {[fam |-> "param", kinds |-> ks, ninst |-> n, early |-> e, nest |-> "none"] : ks \in KindSeqs, n \in 1..3, e \in BOOLEAN}
     \* the template inside its own actual parameter: as the type argument itself (Tpl { Tpl { .. } }), or inside a constructed
